@@ -64,13 +64,16 @@ type Case struct {
 	TabNil    bool     `json:"table_nil,omitempty"` // Event.Formatted == nil
 	WNil      bool     `json:"writer_nil,omitempty"`
 	ENil      bool     `json:"event_nil,omitempty"`
-	Beh       string   `json:"beh,omitempty"`         // ok fail0 failhalf failfull shorthalf short0 over
-	WFunc     bool     `json:"writer_func,omitempty"` // the accepting writer is a func value (value receiver) instead of a pointer
-	Seq       []string `json:"seq,omitempty"`         // w: this call is the last of a sequence on ONE sink; behaviours of the earlier calls
-	Stagger   int      `json:"stagger_ms,omitempty"`  // g: caller i enters Process i*stagger ms after the barrier (overlapping, not simultaneous)
-	TimeoutNs int64    `json:"timeout_ns,omitempty"`  // h g: the configured timeout in nanoseconds when it is not a whole number of ms (overrides timeout)
-	CtxKind   string   `json:"ctx_kind,omitempty"`    // w c f: the context handed to Process: "" background, live, cancelled, past-deadline, custom (Err() != nil)
-	Err       string   `json:"err,omitempty"`         // which error VALUE a failing writer returns (see writerErrors); "" = a private error
+	Beh       string   `json:"beh,omitempty"`           // ok fail0 failhalf failfull shorthalf short0 over
+	WFunc     bool     `json:"writer_func,omitempty"`   // the accepting writer is a func value (value receiver) instead of a pointer
+	Seq       []string `json:"seq,omitempty"`           // w: this call is the last of a sequence on ONE sink; behaviours of the earlier calls
+	Stagger   int      `json:"stagger_ms,omitempty"`    // g: caller i enters Process i*stagger ms after the barrier (overlapping, not simultaneous)
+	TimeoutNs int64    `json:"timeout_ns,omitempty"`    // h g: the configured timeout in nanoseconds when it is not a whole number of ms (overrides timeout)
+	CallerCtx int      `json:"caller_ctx_ms,omitempty"` // g: every caller's own context expires this many ms after its entry (0 = Background)
+	CtxFrom   int      `json:"ctx_from,omitempty"`      // g: only the callers with index >= this have the context (the earlier ones use Background)
+	SlackMs   int      `json:"slack_ms,omitempty"`      // g: a return later than min(timeout, ctx) + this is a violation (0 = the generous 50x bound)
+	CtxKind   string   `json:"ctx_kind,omitempty"`      // w c f: the context handed to Process: "" background, live, cancelled, past-deadline, custom (Err() != nil)
+	Err       string   `json:"err,omitempty"`           // which error VALUE a failing writer returns (see writerErrors); "" = a private error
 	// c
 	Calls []Call `json:"calls,omitempty"`
 	// f: 0 /dev/null 1 stdout 2 stderr 3 file 4 failing file 5 no directory 6/7 stdout/stderr on /dev/full 8/9 stdout/stderr closed
@@ -957,12 +960,13 @@ func (e *emitter) runP(cases []Case) {
 
 // ---------- g: simultaneous ChannelSink.Process calls, fewer free slots than callers, nobody draining ----------
 type gobs struct {
-	Arms        []int  `json:"arms"`
-	Hung        int    `json:"hung"`
-	DeliveredOK bool   `json:"delivered_ok"`
-	Early       bool   `json:"early"`
-	Latency     int64  `json:"latency_us"`
-	Dump        string `json:"goroutine_dump,omitempty"`
+	Arms        []int   `json:"arms"`         // per caller (index = caller), -1 = never returned
+	Lats        []int64 `json:"latencies_us"` // per caller, from its own entry
+	Hung        int     `json:"hung"`
+	DeliveredOK bool    `json:"delivered_ok"`
+	Early       bool    `json:"early"`
+	Latency     int64   `json:"latency_us"`
+	Dump        string  `json:"goroutine_dump,omitempty"`
 }
 
 // execG repeats the round until one shows an anomaly (a caller that never returned, a wrong arm, a wrong channel content) or Rounds
@@ -971,6 +975,27 @@ func execG(c Case) (o gobs, rounds int) {
 	n := c.Rounds
 	if n <= 0 {
 		n = 1
+	}
+	if c.SlackMs > 0 {
+		// certain-direction latency cases: a late return caused by the machine (not by the sink) does not repeat; up to three attempts,
+		// the first one in which every caller is back within its bound + slack is the observation
+		for rounds = 1; rounds <= 3; rounds++ {
+			o = execGRound(c)
+			late := o.Hung > 0
+			for i, l := range o.Lats {
+				bound := c.timeoutUs()
+				if c.CallerCtx > 0 && i >= c.CtxFrom && int64(c.CallerCtx)*1000 < bound {
+					bound = int64(c.CallerCtx) * 1000
+				}
+				if l > bound+int64(c.SlackMs)*1000 {
+					late = true
+				}
+			}
+			if !late {
+				return o, rounds
+			}
+		}
+		return o, 3
 	}
 	for rounds = 1; rounds <= n; rounds++ {
 		o = execGRound(c)
@@ -984,7 +1009,7 @@ func execG(c Case) (o gobs, rounds int) {
 		if c.N < lim {
 			lim = c.N
 		}
-		if o.Hung > 0 || !o.DeliveredOK || o.Early || oks > lim || len(o.Arms) != c.N {
+		if o.Hung > 0 || !o.DeliveredOK || o.Early || oks > lim {
 			return
 		}
 	}
@@ -1022,12 +1047,19 @@ func execGRound(c Case) gobs {
 				time.Sleep(time.Duration(i*c.Stagger) * time.Millisecond)
 			}
 			t0 := time.Now()
-			out, perr := cs.Process(context.Background(), evs[i])
+			ctx, cancel := context.Background(), context.CancelFunc(func() {})
+			if c.CallerCtx > 0 && i >= c.CtxFrom {
+				ctx, cancel = context.WithTimeout(ctx, time.Duration(c.CallerCtx)*time.Millisecond)
+			}
+			out, perr := cs.Process(ctx, evs[i])
+			cancel()
 			lat := time.Since(t0)
 			arm := 3
 			switch {
 			case perr == nil && out == nil:
 				arm = 0
+			case perr != nil && out == nil && errors.Is(perr, context.DeadlineExceeded):
+				arm = 1
 			case perr != nil && out == nil && strings.Contains(perr.Error(), "chan write timeout"):
 				arm = 2
 			}
@@ -1035,14 +1067,17 @@ func execGRound(c Case) gobs {
 		}(i)
 	}
 	ready.Wait()
-	o := gobs{Arms: []int{}, DeliveredOK: true}
+	o := gobs{Arms: make([]int, c.N), Lats: make([]int64, c.N), DeliveredOK: true}
+	for i := range o.Arms {
+		o.Arms[i] = -1
+	}
 	okCaller := map[int]bool{}
 	watchdog := time.After(50*(c.timeoutDur()+20*time.Millisecond) + time.Second + time.Duration(c.N*c.Stagger)*time.Millisecond)
 collect:
 	for got := 0; got < c.N; got++ {
 		select {
 		case r := <-rets:
-			o.Arms = append(o.Arms, r.arm)
+			o.Arms[r.i], o.Lats[r.i] = r.arm, r.lat.Microseconds()
 			if r.arm == 0 {
 				okCaller[r.i] = true
 			}
@@ -1059,7 +1094,6 @@ collect:
 			break collect
 		}
 	}
-	sort.Ints(o.Arms)
 	// what the channel holds: the prefill and exactly the events of the callers that reported success
 	seen := map[*el.Event]bool{}
 	for {
@@ -1089,8 +1123,25 @@ collect:
 	return o
 }
 func litG(c Case, o gobs) string {
-	return fmt.Sprintf("(%s, CG (Build_gcase %s %s %s (Build_gobs %s %s %s %s %s)))", hc.N(c.ID), hc.N(c.Free), hc.N(c.N), hc.Z(c.timeoutUs()),
-		nlist(o.Arms), hc.N(o.Hung), hc.B(o.DeliveredOK), hc.B(o.Early), hc.Z(o.Latency))
+	ctxs := make([]string, c.N)
+	for i := range ctxs {
+		ctxs[i] = "None"
+		if c.CallerCtx > 0 && i >= c.CtxFrom {
+			ctxs[i] = "Some " + hc.Z(int64(c.CallerCtx)*1000)
+		}
+	}
+	slack := 50*(c.timeoutUs()+20000) - c.timeoutUs() // the generous bound of the rounds that only look for hangs
+	if c.SlackMs > 0 {
+		slack = int64(c.SlackMs) * 1000
+	}
+	var calls []string
+	for i, a := range o.Arms {
+		if a >= 0 {
+			calls = append(calls, fmt.Sprintf("(%s,%s)", hc.N(a), hc.Z(o.Lats[i])))
+		}
+	}
+	return fmt.Sprintf("(%s, CG (Build_gcase %s %s %s %s (Build_gobs %s %s %s %s)))", hc.N(c.ID), hc.N(c.Free), hc.Z(c.timeoutUs()), hc.List(ctxs), hc.Z(slack),
+		hc.List(calls), hc.N(o.Hung), hc.B(o.DeliveredOK), hc.B(o.Early))
 }
 
 func genG(e *emitter, rounds int) {
@@ -1106,6 +1157,29 @@ func genG(e *emitter, rounds int) {
 			e.run(Case{Kind: "g", Gen: "staggered", Free: free, N: 4, Timeout: tmo, Stagger: 4, Rounds: 3})
 		}
 	}
+	// a stalled consumer: the channel is full, nobody reads, 2..4 callers enter (almost) together.  They wait CONCURRENTLY: every one of
+	// them is back with the timeout error (or its own context's error) within the shorter of the two + slack of ITS OWN entry.  A caller
+	// that needs 2 x, 3 x that was queued behind the others (certain direction: slack = max(100 ms, 0.6 x bound), the bound is large
+	// against scheduler noise).  The cases mostly sleep: run them side by side.
+	var stalled []Case
+	for _, n := range []int{2, 3, 4} {
+		for _, stagger := range []int{0, 5} {
+			stalled = append(stalled,
+				// timeout 400 ms: flagged only when a caller is back later than 720 ms after ITS entry (queued callers need 800, 1200, ...)
+				Case{Kind: "g", Gen: "stalled-consumer", Free: 0, N: n, Timeout: 400, Stagger: stagger, SlackMs: 320},
+				// every caller's own context ends after 50 ms (timeout 400 ms): flagged when later than 250 ms
+				Case{Kind: "g", Gen: "stalled-consumer", Free: 0, N: n, Timeout: 400, CallerCtx: 50, Stagger: stagger, SlackMs: 200},
+				// the first caller has no context of its own and waits for the timeout; the others' contexts end at 50 ms: they must not wait for it
+				Case{Kind: "g", Gen: "stalled-consumer", Free: 0, N: n, Timeout: 400, CallerCtx: 50, CtxFrom: 1, Stagger: stagger, SlackMs: 200})
+		}
+	}
+	var wg sync.WaitGroup
+	for _, c := range stalled {
+		c.ID = e.id()
+		wg.Add(1)
+		go func(c Case) { defer wg.Done(); e.run(c) }(c)
+	}
+	wg.Wait()
 }
 
 // ---------- emitter ----------
@@ -1176,6 +1250,9 @@ func (e *emitter) run(c Case) {
 		e.stats["g:rounds"] += rounds
 		e.mu.Unlock()
 		stat := fmt.Sprintf("g:free%d:n%02d", c.Free, c.N)
+		if c.SlackMs > 0 {
+			stat = fmt.Sprintf("g:stalled-consumer:n%d:slowest-caller-%dms-of-%dms", c.N, o.Latency/1000/50*50, c.Timeout)
+		}
 		if o.Hung > 0 {
 			stat += ":HUNG"
 		}
